@@ -204,6 +204,31 @@ def run(ctx):
             res.violation("the text printed for a file differs after an earlier conversion in the same process", {"kind": "history", "calls": h, "env": col},
                           impl=diff or str(a)[:300], model=[x for x in (b[1] if b[0] == "ok" else []) if a[0] == "ok" and x not in a[1]][:3],
                           clause="independence from earlier reads / conversions")
+    # a file that is refused (its separately written decays refer back to themselves), then files that are fine, in the same
+    # process: a refused read leaves nothing behind
+    cdoc = [["event_type", ["D0", "K-", "pi+", "pi+", "pi-"]],
+            ["line", ["D", "D0", None, None, [["D", "K(1)(1270)bar-", None, None, []], ["D", "pi+", None, None, []]]]] + A.coupling(rng),
+            ["line", ["D", "K(1)(1270)bar-", None, None, [A.two_body(rng, "rho(770)0", tag=False), ["D", "K(1)(1270)bar-", None, None, []]]]] + A.coupling(rng)]
+    cpath = os.path.join(tmp, "refers_to_itself.txt")
+    open(cpath, "w").write(A.render_amp(cdoc))
+    good = pool[0]
+    rhists = [[["cpp", cpath], ["cpp", good], ["py", good]], [["read:GooFitPyChain", cpath], ["py", good], ["read:AmplitudeChain", good]],
+              [["py", cpath], ["read:GooFitChain", cpath], ["cpp", good]]]
+    with ThreadPoolExecutor(max_workers=6) as ex:
+        routs = list(ex.map(worker, rhists))
+    for h, out in zip(rhists, routs):
+        for step, ((k, pth), r) in enumerate(zip(h, out)):
+            res.case()
+            res.count("after_a_refused_read")
+            if pth == cpath:
+                if r[0] == "ok":
+                    res.count("self_referring_file_accepted")
+                continue
+            if canon_result(k, r) != canon_result(k, ref[(k, pth)]):
+                res.violation("a call gives a different result after a refused read of another file in the same process",
+                              {"kind": "history", "calls": [[k2, os.path.basename(p2)] for k2, p2 in h], "step": step,
+                               "files": {os.path.basename(cpath): open(cpath).read()[:600], os.path.basename(good): open(good).read()[:1200]}},
+                              impl=str(canon_result(k, r))[:300], model=str(canon_result(k, ref[(k, pth)]))[:300], clause="independence from earlier reads / conversions")
     # hash seeds: same canonical output whatever the seed; exactly the same text under the same seed
     seeds = list(range(4)) if tier == "quick" else list(range(32))
     # a file with three spline resonances and the K-matrix family: several multi-line declarations whose order could follow the seed
